@@ -6,6 +6,18 @@ props = [json.loads(l) for l in open(os.path.join(V, "properties.jsonl"))]
 ids = [p["id"] for p in props]
 
 CLAIMS = {
+ "C04": dict(cat="other", tech="IR dominance and instruction-level path search in Ports::dispatch (d.port set / d.obj restored / d.loc truncated / NUL-terminated / matches counted), normalised-AST equality of the three type-matcher clones, post-dominance of refreshMagic in the table-building constructors, finite-domain comparison of run-time and build-time hash formulas",
+    text="Protocol clauses only: each port callback runs with d.port set to its port, d.obj is restored after every callback, every path from a callback in the location branches to the next iteration or return cuts d.loc back to old_end and appended bytes are NUL-terminated before the callback; d.matches is incremented exactly for leaf ports and for default-handler calls; the three hand-written copies of the type-tag matcher (one used by the linear scan, one by the hashed lookup) are the same function; every constructor that fills the table ends in refreshMagic(); the hash computed at dispatch time is the formula the table was built with, and remap[t] is read only with t in range. Whether the perfect hash and the linear scan accept the same addresses for every table is not decided.",
+    note="Trusted: clang AST/-O0 IR, sa/irlib.py, sa/rules/flow.py. Unwind edges are not followed.",
+    ref="DESIGN.md 2 C04"),
+ "C05": dict(cat="other", tech="finite-domain evaluation of rtosc_match_number's predicate, def-use of its operands, call-site shape (result honoured), restore-before-retry rule on the goto structure of rtosc_match_options",
+    text="Narrow claim: `#N` admits exactly indices < N (predicate table over 0..5 x 0..5, operands traced to atoi of message / pattern digits, both digit runs required and consumed, every caller fails the match on false, rtosc_match_partial uses the same strict bound) and every retry of a `{a,b}` alternative restores the message cursor to its entry value first. Literal text, trailing '/', and type alternatives over all (pattern,address) pairs are not decided by this family.",
+    note="Trusted: clang AST, sa/fdeval.py.",
+    ref="DESIGN.md 2 C05"),
+ "C09": dict(cat="other", tech="instruction-level path search on the IR of walk_ports / walk_ports_recurse0 / bundle_foreach (truncation at old_end, NUL termination before consumers), finite-domain evaluation of the #N expansion loops, key agreement with rEnabledBy / rSelf",
+    text="Narrow claim: the shared name buffer is cut back to old_end on every path after anything wrote into it (walk_ports loop, bundle_foreach exit); bytes appended through a cursor are NUL-terminated before the recursion / walker reads the buffer; the #N expansion loops emit exactly 0..N-1 with N = atoi after '#', the set the matcher accepts; `enabled by` and `self:` are the literals the macros emit. Exactly-once enumeration, run-time pruning and multi-component name surgery are not decided.",
+    note="Trusted: clang AST/-O0 IR, sa/rules/flow.py, sa/fdeval.py; snprintf is assumed to NUL-terminate.",
+    ref="DESIGN.md 2 C09"),
  "C12": dict(cat="other", tech="metadata-key agreement between savefile-path lookups (AST, literal and literal-prefix keys) and the keys read off the macro expansions in witness units; vararg-count discipline of rtosc_v2args call sites; OSC-format rule on the captured replies",
     text="Narrow structural claim: the keys the save/load pipeline looks up are exactly keys the port macros can emit (a renamed key on either side silently drops defaults, option maps, blob types or enablement); each caller of rtosc_v2args passes the number of value-carrying tags of the same string or guards a single unpack by has_reserved on the same tag (the capture of value-less replies such as a toggle's \"T\" depends on it - the defect fixed here); the replies the capture consumes are type-correct for every macro kind x field type. Does not decide that save->load reproduces the state, minimality, or rejection of malformed files.",
     note="Trusted: clang AST, witness/meta_matrix.cpp + witness/sugar_matrix.cpp. Keys computed at run time are checked through their literal prefix only.",
